@@ -8,6 +8,7 @@ package harness
 import (
 	"fmt"
 	"os"
+	"strconv"
 	"strings"
 	"time"
 
@@ -148,6 +149,26 @@ func c06Run(c *Ctx, sc c06Scen, seed uint64) {
 		}
 		if len(env2.Seeds) > 0 {
 			viol("random-case-before-or-after-replay run="+which, fmt.Sprintf("PRNG streams were seeded (%d) although the fail file fails", len(env2.Seeds)))
+		}
+		if v2.SeedStr != "" {
+			// a seed named in the report of a fail-file failure is a promise like any other printed seed:
+			// with the fail files out of the way it must make the first test case draw the same values
+			ps, err := strconv.ParseUint(v2.SeedStr, 10, 64)
+			os.Rename("testdata", "testdata.aside")
+			cfg3 := cfg2
+			cfg3.Seed, cfg3.FailFile, cfg3.NoFailFile = ps, "", true
+			env3 := NewEnv(nil, prog.Base)
+			RunCheck(prog, env3, cfg3)
+			c.R.Evals++
+			os.RemoveAll("testdata")
+			os.Rename("testdata.aside", "testdata")
+			if err != nil || len(env3.Invs) == 0 || env3.Invs[0].Draws != last1.Draws {
+				got := "<none>"
+				if len(env3.Invs) > 0 {
+					got = env3.Invs[0].Draws
+				}
+				viol("seed-printed-with-fail-file-does-not-reproduce run="+which, fmt.Sprintf("the report of the fail-file failure says (or -rapid.seed=%s); the saved case drew %s, with that seed the first test case drew %s", v2.SeedStr, trunc(last1.Draws, 100), trunc(got, 100)))
+			}
 		}
 		if which == "same-dir" && len(log2.Files) != 1 {
 			viol("second-file-written", fmt.Sprintf("files after run 2: %v", sortedKeys(log2.Files)))
